@@ -120,9 +120,9 @@ Theorem C12_dfxp_attr_roundtrip : forall l, nonneg_layout l ->
 Proof. exact dfxp_attr_roundtrip. Qed.
 Print Assumptions C12_dfxp_attr_roundtrip.
 
-(* Per character (kept from round 1; the tree-level theorem C12_dfxp_layout_roundtrip below subsumes it for non-nested
-   spans).  Still decided by execution only: BeautifulSoup's parse of the written text, nested style nodes (the
-   writer flattens them: known finding), and that the tree model is what the code does (request 1210, every run):
+(* Per character (kept from round 1; the tree-level theorem C12_dfxp_layout_roundtrip below subsumes it, nested
+   spans included where the writer's flattening is harmless).  Still decided by execution only: BeautifulSoup's parse of
+   the written text, deeper or repeated nesting, and that the tree model is what the code does (request 1210, every run):
      forall cs in dom, forall visible character ch of cs,
        effective (DFXPReader.read (DFXPWriter.write cs)) ch  ==  expected_effective (lang, caption, node layout of ch in transform cs)
    Proved part: for one character, the layout the writer chooses for it (get_positioning_info), written as region
@@ -153,12 +153,17 @@ Theorem C12_resolve_written_region : forall ls o, (o = None \/ In o ls) -> opt_n
 Proof. exact resolve_written_region. Qed.
 Print Assumptions C12_resolve_written_region.
 
-(* TREE LEVEL: for every caption set whose captions consist of words, breaks and (non-nested) style spans with or
-   without a layout of their own, with layouts at language / caption / span level (non-negative lengths): the model of
-   DFXPWriter.write (region table, region attributes on div / p / span, span assembly from the flat node list) followed by
-   the model of the reader (region resolution, tree walk) gives the language, every caption and EVERY WORD the
-   statement's expected effective layout: node > caption > language, two-decimal values, defaults start / after *)
+(* TREE LEVEL: for every caption set whose captions consist of words, breaks, style spans with or without a layout of
+   their own, and NESTED style spans (GNest: a span holding words, one inner span, words) on the domain where the writer's
+   flattening is harmless (lang_harmless: the outer span carries no layout, or nothing follows the inner span inside the outer
+   one and the inner span has a layout of its own or is not written as a <span>), with layouts at language / caption / span
+   level (non-negative lengths): the model of DFXPWriter.write (region table, region attributes on div / p / span, span
+   assembly from the flat node list - an inner span start closes the outer span, a style end closes whatever is open)
+   followed by the model of the reader (region resolution, tree walk) gives the language, every caption and EVERY WORD the
+   statement's expected effective layout: nearest enclosing span with a layout > caption > language, two-decimal values,
+   defaults start / after.  Outside that domain the statement fails: C12_ex_nested_refuted. *)
 Theorem C12_dfxp_layout_roundtrip : forall langs, Forall opt_nonneg (set_layouts (map to_dlang langs)) ->
+  Forall lang_harmless langs ->
   exists obs, dfxp_roundtrip None (map to_dlang langs) = Ok obs /\ Forall2 lang_rel obs langs.
 Proof. exact dfxp_layout_roundtrip. Qed.
 Print Assumptions C12_dfxp_layout_roundtrip.
@@ -269,3 +274,31 @@ Example C12_ex_set_level :
   | _, _ => False
   end.
 Proof. vm_compute. split; reflexivity. Qed.
+
+(* nested spans.  Outer span with layout A holding: word 1, an inner span, word 3 (caption layout C).
+   - harmless instance of the theorem's domain (inner span with its own layout B, nothing after it): words 1, 2 come back at A, B;
+   - known finding C12-dfxp-nested-span-layout, REFUTED instance (inner styled span without a layout, word 3 after it): the
+     inner start closes the outer span, so words 2 and 3 come back with the CAPTION's origin (20 60), not the outer span's (30 5)
+     that the statement expects for them *)
+Example C12_ex_nested_refuted :
+  let s v := mkSize v PCT in
+  let A := mkLayout (Some (mkPoint (s (30 # 1)) (s (5 # 1)))) None None None None in
+  let B := mkLayout (Some (mkPoint (s (45 # 1)) (s (45 # 1)))) None None None None in
+  let C := mkLayout (Some (mkPoint (s (20 # 1)) (s (60 # 1)))) None None None None in
+  let origins rs := match rs with Ok [rl] => map (fun c => map (fun wl => (fst wl, l_origin (snd wl))) (rc_words c)) (rl_caps rl) | _ => [] end in
+  let good := mkGlang None [mkGcap (Some C) [GNest true (Some A) [GWord 1] true (Some B) [GWord 2] []]] in
+  let bad := mkGlang None [mkGcap (Some C) [GNest true (Some A) [GWord 1] true None [GWord 2] [GWord 3]]] in
+  lang_harmless good
+  /\ origins (dfxp_roundtrip None [to_dlang good]) = [[(1, l_origin A); (2, l_origin B)]]
+  /\ ~ lang_harmless bad
+  /\ origins (dfxp_roundtrip None [to_dlang bad]) = [[(1, l_origin A); (2, l_origin C); (3, l_origin C)]]
+  /\ map (fun wl => (fst wl, l_origin (snd wl))) (flat_map (seg_expected None (Some C)) (gc_segs (mkGcap (Some C) [GNest true (Some A) [GWord 1] true None [GWord 2] [GWord 3]])))
+     = (let oa := Some (mkPoint (s (3000 # 100)) (s (500 # 100))) in [(1, oa); (2, oa); (3, oa)]).   (* 30.00 5.00: A's origin *)
+Proof.
+  split; [constructor; [constructor; [right; split; [reflexivity|left; reflexivity]|constructor]|constructor]|].
+  split; [vm_compute; reflexivity|].
+  split.
+  - intros H. inversion H as [|? ? H1 _]; subst. inversion H1 as [|? ? H2 _]; subst. cbn in H2.
+    destruct H2 as [H2|[H2 _]]; discriminate H2.
+  - split; vm_compute; reflexivity.
+Qed.
